@@ -40,6 +40,7 @@ CHECKS["C02"] = {
     "jobs": [
         {"pkg": MUX, "run": "^TestVerif_C02_Exhaustive$"},
         {"pkg": MUX, "run": "^TestVerif_C02_Sampled$", "checks": {"quick": 5000, "thorough": 1000000}, "shards": {"thorough": 16}},
+        {"pkg": MUX, "run": "^TestVerif_C02_Concurrent$", "checks": {"quick": 300, "thorough": 30000}, "shards": {"thorough": 8}},
     ],
 }
 
@@ -53,6 +54,7 @@ CHECKS["C01"] = {
     "jobs": [
         {"pkg": MUX, "run": "^TestVerif_C01_SessionPair$", "checks": {"quick": 1500, "thorough": 200000}, "shards": {"thorough": 16}},
         {"pkg": MUX, "run": "^TestVerif_C01_AddConnRace$", "checks": {"quick": 300, "thorough": 20000}, "shards": {"thorough": 8}},
+        {"pkg": MUX, "run": "^TestVerif_C01_Liveness$", "checks": {"quick": 150, "thorough": 10000}, "shards": {"thorough": 8}, "timeout": {"quick": 900}},
         {"pkg": SERVER, "run": "^TestVerif_C01_FullRig$", "checks": {"quick": 90, "thorough": 8000}, "shards": {"thorough": 16}, "timeout": {"quick": 600}},
         {"pkg": MUX, "run": "^TestVerif_C01_ManyStreams$", "checks": {"quick": 40, "thorough": 3000}, "shards": {"thorough": 16}},
     ],
